@@ -1,8 +1,9 @@
 (** C03 — compiled execution equals the dataflow meaning of the user's graph.
     Models: Graph/Net.v (compilers, loaders, executor), Graph/Denote.v (user-level meaning used
-    as the decidable spec on implementation outputs).  Proofs: Proofs/C03_Exec.v, C03_Compile.v. *)
+    as the decidable spec on implementation outputs).  Proofs: Proofs/C03_Exec.v, C03_Compile.v,
+    C03_Ancestors.v, C03_EndToEnd.v. *)
 From Coq Require Import List String ZArith Arith Bool.
-From Elfi Require Import Graph.Net Graph.Denote Proofs.C03_Exec Proofs.C03_Compile.
+From Elfi Require Import Graph.Net Graph.Denote Proofs.C03_Exec Proofs.C03_Compile Proofs.C03_Ancestors Proofs.C03_EndToEnd.
 Import ListNotations.
 
 (** The dataflow meaning [Den] of a loaded net is a function of the net. *)
@@ -97,6 +98,51 @@ Definition ex_src : snet :=
      s_edges := [("c"%string, "t"%string, PInt 0); ("t"%string, "y"%string, PInt 0);
                  ("y"%string, "s"%string, PInt 0); ("s"%string, "d"%string, PInt 0)];
      s_observed := [("y"%string, VConst 7)] |}.
+
+(** End to end, twin-free fragment: for EVERY source net without observable / observed-using nodes
+    (any DAG shape, any mix of constants, priors-as-stochastic nodes and operations, any
+    batch_size / meta / random_state declarations, any supplied with_values, any requested
+    outputs), whatever generate returns after all five compilers (incl. the reduction to the
+    ancestors of the outputs), the loaders and the executor is the user-level dataflow meaning
+    [den_name] of the requested node.  (With observed twins the same statement is covered by the
+    correspondence check only.) *)
+Theorem C03_generate_twin_free_is_dataflow :
+  forall src outs W out log,
+    plain src -> NoDup (map fst W) -> (forall k, In k (map fst W) -> ~ In k inames) ->
+    generate src outs W = Ok (out, log) ->
+    forall o v, In (o, v) out -> has o (s_nodes src) = true -> den_name src W o = Some v.
+Proof. exact generate_plain_sound. Qed.
+Print Assumptions C03_generate_twin_free_is_dataflow.
+
+(** The ancestor computation used by the ReduceCompiler and the executor is complete: it contains
+    the roots and is closed under the source of every edge into it. *)
+Theorem C03_ancestors_complete :
+  forall es roots,
+    (forall r, In r roots -> In r (ancestors_incl es roots))
+    /\ (forall e, In e es -> In (e_dst e) (ancestors_incl es roots) -> In (e_src e) (ancestors_incl es roots)).
+Proof. exact ancestors_incl_complete. Qed.
+Print Assumptions C03_ancestors_complete.
+
+(** Non-vacuity of the end-to-end theorem: a twin-free model with a constant, two stochastic nodes,
+    an operation with a keyword parent and an unused node meets [plain], generate succeeds with a
+    supplied value, and runs three operations. *)
+Definition e2e_src : snet :=
+  {| s_nodes := [("c"%string, ex_st "c"%string (Some (VConst 1)) false false false false false);
+                 ("t"%string, ex_st "t"%string None true true false false true);
+                 ("u"%string, ex_st "u"%string None true true false false true);
+                 ("w"%string, ex_st "w"%string None true false false false false);
+                 ("f"%string, ex_st "f"%string None true false false false false);
+                 ("unused"%string, ex_st "unused"%string None true true false false false)];
+     s_edges := [("c"%string, "t"%string, PInt 0); ("t"%string, "u"%string, PInt 1); ("c"%string, "u"%string, PInt 0);
+                 ("u"%string, "f"%string, PInt 0); ("w"%string, "f"%string, PStr "kw"%string)];
+     s_observed := [] |}.
+Example C03_end_to_end_example :
+  plain_b e2e_src = true
+  /\ match generate e2e_src ["f"; "t"]%string [("w"%string, VConst 9)] with
+     | Ok (out, log) => List.length out = 2%nat /\ log = ["t"; "u"; "f"]%string
+     | Err _ => False
+     end.
+Proof. vm_compute. repeat split. Qed.
 
 Example C03_example :
   generate ex_src ["d"%string] []
